@@ -259,6 +259,40 @@ def _chunk(params, lo, hi):
     return r
 
 
+def _alpha_chunk(params, lo, hi):
+    """2 variables, 2 rows over explicit alphabets (aa, ba, ca): index = (((ac*|ba|^2 + bc)*|ca|^2 + cc)*4 + isub)*2 + min.
+    Used with 3 / -3 among the entries: pivoting on them gives thirds, the first node LPs with rounding residue."""
+    aa, ba, ca = params
+    r = new_result()
+    geo = None
+    gkey = None
+    for idx in range(lo, hi):
+        minimize = idx % 2 == 0
+        k = idx // 2
+        isub = k % 4
+        k //= 4
+        cc = k % len(ca) ** 2
+        k //= len(ca) ** 2
+        bc = k % len(ba) ** 2
+        ac = k // len(ba) ** 2
+        ad = digits(ac, len(aa), 4)
+        A = [[aa[ad[0]], aa[ad[1]]], [aa[ad[2]], aa[ad[3]]]]
+        b = [ba[d] for d in digits(bc, len(ba), 2)]
+        c = [ca[d] for d in digits(cc, len(ca), 2)]
+        ints = tuple(j for j in range(2) if isub >> j & 1)
+        if (ac, bc) != gkey:
+            geo = Geometry(A, b, 2)
+            gkey = (ac, bc)
+        for kw in (dict(), dict(heuristics=False)):
+            errs, label, nt = judge(geo, c, ints, minimize, kw)
+            wit = {"c": c, "A": A, "b": b, "integers": list(ints), "minimize": minimize, "config": kw}
+            _rec(r, errs, label, nt, wit, f"solve_milp(c={c}, A={A}, b={b}, integers={list(ints)}, minimize={minimize}, {kw})")
+        if len(r["violations"]) >= 40 or too_many_hangs():
+            r["capped"] = True
+            break
+    return r
+
+
 def _binary_chunk(params, lo, hi):
     """3 variables, rows x_j<=1 (j=0..2) + one general row a.x<=b0 (+ optionally a second); all integer.
     index = ((a_code*4 + b0)*64 + c_code)*2 + minimize ; second row from params"""
@@ -376,6 +410,8 @@ def jobs(tier, seed):
     FULL_MENU[0] = tier == "thorough"
     for n, m in ((1, 1), (1, 2), (2, 1), (2, 2)):
         js.append(Job(f"milp_{n}v{m}r", _size(n, m), _chunk, (n, m, 64 if tier == "quick" else 4), describe="all instances x integer subsets x min/max, heuristics on/off; every 16th (4th in thorough) instance x full configuration menu"))
+    th = ((-3, 0, 2, 3), (-2, 1, 6, 7), (-3, -1, 2)) if tier == "quick" else ((-3, -1, 0, 2, 3), (-2, 0, 1, 6, 7), (-3, -1, 0, 2))
+    js.append(Job("milp_2v2r_thirds", len(th[0]) ** 4 * len(th[1]) ** 2 * len(th[2]) ** 2 * 8, _alpha_chunk, th, describe=f"2 variables, 2 rows, A over {th[0]}, b over {th[1]}, c over {th[2]}, integer subsets, min/max, heuristics on/off: entries 3/-3 give node LPs with thirds (rounding residue)"))
     js.append(Job("binary3_one_row", 64 * 4 * 64 * 2, _binary_chunk, None, describe="3 variables with explicit x_j<=1 rows + one general row; all-integer and mixed; rounding heuristic, LNS seeds, limits, warm starts"))
     js.append(Job("binary3_two_rows", 64 * 4 * 64 * 2, _binary_chunk, ((1, 1, 1), 2), describe="same with an extra cardinality row x0+x1+x2<=2"))
     na = 3 if tier == "thorough" else 1
